@@ -337,7 +337,7 @@ def check_case(case):
 
 def describe(tier):
     return {
-        "alphabet": "fill histories: files of k granules (k=1..34), alternating sizes (k1,k2<=6), exact-multiple stream lengths, names without or with a short extension, blank names and names starting with a blank, file_util --to_dsk --append batches onto disks with 1-4 free granules (all-or-nothing), after the first refusal the same object must be unchanged and still take a 1-granule and an empty file if they fit, under " +
+        "alphabet": "files with a length header of 65,535 / 65,536 / 70,000 bytes (stored exactly, or refused with the image byte-identical and the next files still stored); fill histories: files of k granules (k=1..34), alternating sizes (k1,k2<=6), exact-multiple stream lengths, names without or with a short extension, blank names and names starting with a blank, file_util --to_dsk --append batches onto disks with 1-4 free granules (all-or-nothing), after the first refusal the same object must be unchanged and still take a 1-granule and an empty file if they fit, under " +
                     ("all 72" if tier == "thorough" else "10") + " fill orders, via DiskFile.add_file and via VirtualFile append on a host file; synthetic "
                     "images; files of every kind (ML/BASIC/ASCII/DATA: different header and trailer sizes) whose stored stream is k granules +-0,1,2 bytes; synthetic "
                     "images (independent writer) with F free granules for every F in 0..68 at 4 placements and 0/1/2/69/70/71/72 live directory entries",
